@@ -521,6 +521,110 @@ theorem unparseable_env_raises (P : Parsers) (cv : CV) (s : State) (t : Text) (e
     (hp : parse src P cv t = .error e) : get src P cv s = .error e := by
   rw [get_refines, hx, he]; simp [resolve, fromEnv, hp]
 
+/-! ## The `config` decorator: which attributes of a user-defined class are configuration values
+
+`decorate src c pre m body` is what `@config(pre)` makes of the class body (`src.nameTests`, `src.wrappedKeeps` are read from the
+decorator's loop by the translator).  `PublicUpper` is the property-side reading of "upper-case public name":
+python's `str.isupper()` (some upper-case cased character, no lower-case one; Latin-1 tables compared with CPython by the
+harness) and no leading underscore. -/
+
+/-- EXACTLY the public upper-case names of the class body become configuration values of the decorated class (and of no
+other class): `known` is what `update` / the descriptors consult -/
+theorem decorator_selects_exactly_public_upper (c : Nat) (pre m : Text) (attrs : List Attr) (c' : Nat) (n : Text) :
+    known (decorate src c pre m attrs) c' n = true ↔ c' = c ∧ (∃ a ∈ attrs, a.name = n) ∧ PublicUpper n := by
+  simp only [known, lookupCV, List.find?_isSome, decorate, List.mem_filterMap]
+  constructor
+  · rintro ⟨cv, ⟨a, ha, hd⟩, hp⟩
+    by_cases hn : isConfigName src a.name = true
+    · rw [decorate1_some hn] at hd
+      cases hd
+      simp at hp
+      exact ⟨hp.1.symm, ⟨a, ha, hp.2⟩, hp.2 ▸ (isConfigName_iff _).mp hn⟩
+    · rw [decorate1_none (by simpa using hn)] at hd
+      cases hd
+  · rintro ⟨rfl, ⟨a, ha, rfl⟩, hn⟩
+    exact ⟨_, ⟨a, ha, decorate1_some ((isConfigName_iff _).mpr hn)⟩, by simp⟩
+
+/-- … and each of them is declared with the default, type, custom parser and `env_var=` override written in the body, the
+decorator's prefix and the module of the generated metaclass (attribute names of a class body are distinct) -/
+theorem decorator_declares (c : Nat) (pre m : Text) : ∀ (attrs : List Attr) (a : Attr), a ∈ attrs → PublicUpper a.name →
+    (attrs.map (·.name)).Nodup →
+    lookupCV (decorate src c pre m attrs) c a.name = some ⟨c, a.name, a.default, a.ty, a.parser, a.envOverride, pre, m⟩ := by
+  intro attrs
+  induction attrs with
+  | nil => intro a ha; cases ha
+  | cons x rest ih =>
+    intro a ha hn hnd
+    simp only [List.map_cons, List.nodup_cons] at hnd
+    rcases List.mem_cons.mp ha with rfl | hr
+    · simp [decorate, lookupCV, decorate1_some ((isConfigName_iff _).mpr hn)]
+    · have hne : x.name ≠ a.name := fun e => hnd.1 (e ▸ List.mem_map_of_mem hr)
+      have := ih a hr hn hnd.2
+      simp only [decorate, lookupCV] at this ⊢
+      by_cases hx : isConfigName src x.name = true
+      · simp only [List.filterMap_cons, decorate1_some hx, List.find?_cons]
+        have hb : (x.name == a.name) = false := by simpa using hne
+        simp [hb, this]
+      · simp only [List.filterMap_cons, decorate1_none (by simpa using hx)]
+        exact this
+
+/-- its environment variable is literally `PREFIX_NAME` (digits, underscores, non-ASCII capitals included) -/
+theorem decorated_env_name (c : Nat) (pre m : Text) (a : Attr) (hn : PublicUpper a.name) (ho : a.envOverride = [])
+    (hp : pre ≠ []) :
+    envName src ⟨c, a.name, a.default, a.ty, a.parser, a.envOverride, pre, m⟩ = pre ++ ['_'] ++ a.name :=
+  env_name_upper _ ho hp (not_lower_of_upperName hn.1)
+
+/-- hence EVERY upper-case public attribute of a decorated class is a configuration value that resolves as explicit value,
+else environment variable `PREFIX_NAME`, else the default written in the body — in every state -/
+theorem decorated_value_resolves (P : Parsers) (c : Nat) (pre m : Text) (attrs : List Attr) (a : Attr) (ha : a ∈ attrs)
+    (hn : PublicUpper a.name) (hnd : (attrs.map (·.name)).Nodup) (s : State) :
+    ∃ cv, lookupCV (decorate src c pre m attrs) c a.name = some cv ∧ cv.default = a.default ∧
+      (a.envOverride = [] → pre ≠ [] → envName src cv = pre ++ ['_'] ++ a.name) ∧
+      get src P cv s = resolve P cv (s.explicit (c, a.name)) (s.env (envName src cv)) :=
+  ⟨_, decorator_declares c pre m attrs a ha hn hnd, rfl, decorated_env_name c pre m a hn, get_refines P _ s⟩
+
+/-- names that are not upper-case public (leading underscore, lower / mixed case, no cased character) are NOT configuration
+values … -/
+theorem decorator_leaves_other_names (c : Nat) (pre m : Text) (attrs : List Attr) (c' : Nat) (n : Text)
+    (h : ¬ PublicUpper n) : known (decorate src c pre m attrs) c' n = false := by
+  cases hk : known (decorate src c pre m attrs) c' n with
+  | false => rfl
+  | true => exact absurd ((decorator_selects_exactly_public_upper c pre m attrs c' n).mp hk).2.2 h
+
+/-- … so a bulk update naming one of them is rejected -/
+theorem update_rejects_non_config_name (c : Nat) (pre m : Text) (attrs : List Attr) (s : State) (d : List (Text × V))
+    (h : ∃ e ∈ d, ¬ PublicUpper e.1) :
+    (step src (decorate src c pre m attrs) s (.update c d)).2 = .err .attributeError := by
+  obtain ⟨e, he, hn⟩ := h
+  exact update_rejects_unknown _ s c d ⟨e, he, decorator_leaves_other_names c pre m attrs c e.1 hn⟩
+
+/-- a class body: `X1 = 1; _PRIV = "p"; lower = 2; Mixed = 3; L2_NORM = False; X = ConfigValue(1, env_var="OV", parser=int);
+ÄB = 4; 数1 = 5; _1 = 6; äB = 7` -/
+def exBody : List Attr :=
+  [⟨['X', '1'], .int 1, .int, none, []⟩, ⟨['_', 'P', 'R', 'I', 'V'], .str ['p'], .str, none, []⟩,
+   ⟨['l', 'o', 'w', 'e', 'r'], .int 2, .int, none, []⟩, ⟨['M', 'i', 'x', 'e', 'd'], .int 3, .int, none, []⟩,
+   ⟨['L', '2', '_', 'N', 'O', 'R', 'M'], .bool false, .bool, none, []⟩, ⟨['X'], .int 1, .int, some 0, ['O', 'V']⟩,
+   ⟨[Char.ofNat 196, 'B'], .int 4, .int, none, []⟩, ⟨[Char.ofNat 25968, '1'], .int 5, .int, none, []⟩,
+   ⟨['_', '1'], .int 6, .int, none, []⟩, ⟨[Char.ofNat 228, 'B'], .int 7, .int, none, []⟩]
+
+example : (decorate src 0 ['P'] ['m'] exBody).map (·.name)
+    = [['X', '1'], ['L', '2', '_', 'N', 'O', 'R', 'M'], ['X'], [Char.ofNat 196, 'B']] := by decide
+example : PublicUpper ['X', '1'] := (isConfigName_iff _).mp (by decide)
+example : PublicUpper ['L', '2', '_', 'N', 'O', 'R', 'M'] := (isConfigName_iff _).mp (by decide)
+example : ¬ PublicUpper ['_', 'P', 'R', 'I', 'V'] := fun h => absurd ((isConfigName_iff _).mpr h) (by decide)
+example : ¬ PublicUpper ['M', 'i', 'x', 'e', 'd'] := fun h => absurd ((isConfigName_iff _).mpr h) (by decide)
+example : (exBody.map (·.name)).Nodup := by decide
+example : ((lookupCV (decorate src 0 ['P'] ['m'] exBody) 0 ['X', '1']).map (envName src)) = some ['P', '_', 'X', '1'] := by
+  decide
+example : ((lookupCV (decorate src 0 ['P'] ['m'] exBody) 0 ['X']).map (fun cv => (envName src cv, cv.parser)))
+    = some (['O', 'V'], some 0) := by decide
+example : ((lookupCV (decorate src 0 ['P'] ['m'] exBody) 0 ['X', '1']).map fun cv =>
+    get src noParsers cv (run src (decorate src 0 ['P'] ['m'] exBody) State.init [.setenv ['P', '_', 'X', '1'] ['5']]))
+    = some (.ok (.int 5)) := by decide
+example : (step src (decorate src 0 ['P'] ['m'] exBody) State.init (.update 0 [(['X', '1'], .int 0)])).2 = .ok := by decide
+example : (step src (decorate src 0 ['P'] ['m'] exBody) State.init (.update 0 [(['M', 'i', 'x', 'e', 'd'], .int 0)])).2
+    = .err .attributeError := by decide
+
 /-! ## The two defects found on the unrepaired tree (F15, F16), as statements about the unrepaired description
 
 `srcUnrepaired` is `src` with the two decisions as the translator reads them from the unrepaired `config.py`
